@@ -337,7 +337,14 @@ pub fn gen_fe_session(t: &mut Tape, o: &FeGen) -> FeSession {
     for (r, why) in body {
         let mut s = server::gen_script(t, &r, o.fail_rate);
         if matches!(r, FReq::GetQueueNum) {
-            s.val = MAXQ;
+            // any queue count up to the protocol's maximum (0x8000) is a usable result; never
+            // below MAXQ, so that later calls keep their queue indexes acceptable
+            s.val = match t.draw(4) {
+                0 => MAXQ,
+                1 => 0x8000,
+                2 => 0x7fff,
+                _ => MAXQ + t.draw(0x8000 - MAXQ + 1),
+            };
         }
         if matches!(r, FReq::GetFeatures) {
             // a device does not withdraw VHOST_USER_F_PROTOCOL_FEATURES in mid-session; without
